@@ -293,9 +293,21 @@ static void *dequeue(thread_pool_t *interface)
 			if (out != NULL)
 				break;
 
+			/*
+			 * Once the error state is set the workers stop
+			 * picking up items; whatever is still queued is
+			 * never going to complete. Bail out instead of
+			 * waiting forever, the caller can check the status.
+			 */
+			if (pool->status != 0)
+				break;
+
 			pthread_cond_wait(&pool->done_cond, &pool->mtx);
 		}
 		pthread_mutex_unlock(&pool->mtx);
+
+		if (out == NULL)
+			return NULL;
 	}
 
 	ptr = out->data;
